@@ -889,7 +889,7 @@ def run_c18(ctx):
     env['VERIF_RACE_ROUNDS'] = str(rounds)
     rc, out, dt = fw.sh(['go', 'test', '-race', '-tags', 'verif', '-run', 'TestConcurrent', '-count=1', '.'],
                         cwd=os.path.join(root, 'harness'), timeout=_tier(ctx, 900, 3600), env=env)
-    nops = 18
+    nops = 21
     ctx['evaluations'] += rounds * 32 * nops
     ctx['nontrivial'] += rounds * nops
     ctx['distribution']['race_rounds'] = rounds
